@@ -6,7 +6,7 @@ use vespertide_core::schema::primary_key::{PrimaryKeyDef, PrimaryKeySyntax};
 use vespertide_core::*;
 
 pub const TABLE_POOL: &[&str] = &[
-    "user", "post", "a", "b", "a_b", "order", "item", "tag", "post_tag", "t1", "User", "orderItem",
+    "user", "post", "a", "b", "a_b", "order", "item", "tag", "post_tag", "t1", "app_user", "app_", "User", "orderItem",
 ];
 pub const COL_POOL: &[&str] = &[
     "a", "b", "a_b", "user_id", "post_id", "name", "status", "user", "email", "created_at", "kind",
@@ -247,7 +247,20 @@ pub fn add_key(rng: &mut Rng, t: &mut TableDef, cols: &[String], unique: bool) {
             let v = match (cur, named) {
                 (None, false) => StrOrBoolOrArray::Bool(true),
                 (None, true) => {
-                    if rng.chance(1, 3) { StrOrBoolOrArray::Array(vec![name.clone()]) } else { StrOrBoolOrArray::Str(name.clone()) }
+                    match rng.below(4) {
+                        0 => StrOrBoolOrArray::Array(vec![name.clone()]),
+                        1 => {
+                            // several names at once: the column joins (or founds) several groups
+                            let mut l = vec![name.clone()];
+                            for extra in NAME_POOL {
+                                if *extra != name && rng.chance(1, 3) {
+                                    l.push(extra.to_string());
+                                }
+                            }
+                            StrOrBoolOrArray::Array(l)
+                        }
+                        _ => StrOrBoolOrArray::Str(name.clone()),
+                    }
                 }
                 (Some(StrOrBoolOrArray::Str(s)), true) if s != name => StrOrBoolOrArray::Array(vec![s, name.clone()]),
                 (Some(StrOrBoolOrArray::Array(mut l)), true) if !l.contains(&name) => {
@@ -350,6 +363,59 @@ pub fn gen_table(rng: &mut Rng, name: &str, others: &[TableDef], profile: Profil
             add_fk(rng, &mut t, &cname, &target.name, &tpk[0]);
         }
     }
+    // two foreign keys to the same parent (e.g. from_account / to_account)
+    if !others.is_empty() && rng.chance(1, 5) {
+        let target = rng.pick(others).clone();
+        let tpk = pk_columns(&target);
+        if tpk.len() == 1 {
+            if let Some(rty) = find_col(&target, &tpk[0]).map(|c| c.r#type.clone()) {
+                for pre in ["from", "to"] {
+                    let cname = format!("{}_{}_{}", pre, target.name, tpk[0]);
+                    if !t.columns.iter().any(|c| c.name == cname) {
+                        t.columns.push(col(&cname, rty.clone(), true));
+                        add_fk(rng, &mut t, &cname, &target.name, &tpk[0]);
+                    }
+                }
+            }
+        }
+    }
+    // composite foreign key to a composite primary key, sometimes with an inline FK on one member as well
+    if !others.is_empty() && rng.chance(1, 4) {
+        if let Some(target) = others.iter().find(|o| pk_columns(o).len() == 2) {
+            let tpk = pk_columns(target);
+            let mut cols = vec![];
+            for rc in &tpk {
+                let cname = format!("{}_{}", target.name, rc);
+                if !t.columns.iter().any(|c| c.name == cname) {
+                    if let Some(rty) = find_col(target, rc).map(|c| c.r#type.clone()) {
+                        t.columns.push(col(&cname, rty, true));
+                    }
+                }
+                cols.push(cname);
+            }
+            if cols.iter().all(|c| t.columns.iter().any(|x| &x.name == c)) {
+                t.constraints.push(TableConstraint::ForeignKey {
+                    name: if rng.chance(1, 3) { Some("cfk".into()) } else { None },
+                    columns: cols.clone(),
+                    ref_table: target.name.clone(),
+                    ref_columns: tpk.clone(),
+                    on_delete: None,
+                    on_update: None,
+                });
+                if rng.chance(1, 2) && !others.is_empty() {
+                    // an additional single-column FK declared inline on a member of the composite one
+                    let o2 = rng.pick(others).clone();
+                    let o2pk = pk_columns(&o2);
+                    if o2pk.len() == 1 {
+                        let idx = t.columns.iter().position(|c| c.name == cols[0]).unwrap();
+                        if t.columns[idx].foreign_key.is_none() {
+                            t.columns[idx].foreign_key = Some(ForeignKeySyntax::String(format!("{}.{}", o2.name, o2pk[0])));
+                        }
+                    }
+                }
+            }
+        }
+    }
     // self reference
     if rng.chance(1, 10) && pk_names.len() == 1 && !t.columns.iter().any(|c| c.name == "parent_id") {
         let rty = t.columns[0].r#type.clone();
@@ -435,6 +501,13 @@ pub fn edit_models(rng: &mut Rng, m: &mut Vec<TableDef>, profile: Profile) -> &'
                 }
             }
             "add_table"
+        }
+        1 if rng.chance(1, 3) => {
+            // drop a table together with every table that references it
+            let name = m[ti].name.clone();
+            let refs: Vec<String> = m.iter().filter(|t| t.normalize().map(|n| n.constraints.iter().any(|c| matches!(c, TableConstraint::ForeignKey { ref_table, .. } if *ref_table == name))).unwrap_or(false)).map(|t| t.name.clone()).collect();
+            m.retain(|t| t.name != name && !refs.contains(&t.name));
+            "drop_table_family"
         }
         1 => {
             // drop table (and, mostly, the FKs that point at it)
